@@ -562,7 +562,12 @@ def run_C05(ctx: Ctx) -> Result:
 
 
 def compile_docs(ctx, n_quick, n_thorough):
-    return streams.corpus_docs() + streams.doc_mix(ctx.rng, ctx.n(n_quick, n_thorough), noisy=0.0, mutated=0.05)
+    docs = streams.corpus_docs() + streams.doc_mix(ctx.rng, ctx.n(n_quick, n_thorough), noisy=0.0, mutated=0.05)
+    docs += [gens.permuted_examples(ctx.rng) for _ in range(ctx.n(400, 4000))]
+    # a language-switching document somewhere in the sequence (state of a reused matcher)
+    docs.insert(len(docs) // 3, "# language: ru\nФункция: ф\n  Сценарий: с\n    Допустим а\n    И б\n")
+    docs.insert(len(docs) // 2, "# language: fr\nFonctionnalité: f\n  Scénario: s\n    Soit a\n    Et b\n")
+    return docs
 
 
 def make_compile_run(proj, extra=None):
@@ -612,6 +617,26 @@ def extra_C10(ctx: Ctx) -> Result:
         if ta != tb or any(t not in ("Unknown", "Context", "Action", "Outcome") for t in ta + tb):
             res.fail("pickles", {"source": docs[i + 1]}, {"plain": ta, "outline": tb}, "equal, within the vocabulary",
                      "pickle step types of the outline differ from the plain scenario or leave the vocabulary")
+    # every dialect: and/but keywords inherit, given/when/then keywords give their category, '*' is Unknown
+    D = impl.dialects()
+    cat = {"given": "Context", "when": "Action", "then": "Outcome"}
+    for name, spec in D.items():
+        steps = spec["given"] + spec["when"] + spec["then"] + spec["and"] + spec["but"]
+        first = next((k for k in spec["given"] if k != "* " and not any(o != k and k.startswith(o) for o in steps)), None)
+        if first is None:
+            continue
+        for role in ("given", "when", "then", "and", "but"):
+            for kw in spec[role]:
+                if any(o != kw and kw.startswith(o) for o in steps):
+                    continue        # shadowed by an earlier listed keyword (C05_step_first_prefix)
+                src = f"# language: {name}\n{spec['feature'][0]}: f\n  {spec['scenario'][0]}: s\n    {first}a\n    {kw}b\n"
+                o = impl.pickles(src)
+                want = "Unknown" if kw == "* " else cat.get(role, "Context")
+                got = [s_.get("type") for p in o.get("pickles", []) for s_ in p["steps"]]
+                res.note({"dialect": name, "keyword": kw}, True)
+                if got != ["Context", want]:
+                    res.fail("pickles", {"source": src}, got, ["Context", want],
+                             f"dialect {name}: step keyword {kw!r} ({role}) gives types {got}, expected {['Context', want]}")
     return res
 
 
@@ -684,11 +709,14 @@ def run_C12(ctx: Ctx) -> Result:
         g.emit("Feature: f")
         g.emit("  Scenario Outline: s")
         g.emit("    Given a")
+        def row(ch):
+            k = ctx.rng.randrange(0, 4)       # k cells; a lone pipe is a row with zero cells
+            return "      |" + "".join(ch + "|" for _ in range(k))
         for _ in range(ctx.rng.randrange(1, 5)):
-            g.emit("      |" + "|".join("x" for _ in range(ctx.rng.randrange(0, 4))) + "|")
+            g.emit(row("x"))
         g.emit("    Examples:")
         for _ in range(ctx.rng.randrange(0, 5)):
-            g.emit("      |" + "|".join("y" for _ in range(ctx.rng.randrange(0, 4))) + "|")
+            g.emit(row("y"))
         docs.append("".join(g.lines))
     res.merge(streams.parse_stream(docs + streams.corpus_docs(), proj_tables, modes=(False, True)))
     return res
